@@ -329,6 +329,7 @@ func runCache(sci interface{}) {
 				}
 				to := opsDone + 1
 				pendingReads = append(pendingReads, pendingRead{from, to, world.IDs(objs)})
+				world.Scribble(objs)
 				detsim.Yield("reader")
 			}
 		}()
@@ -434,6 +435,7 @@ func runCache(sci interface{}) {
 		states = append(states, wantIDs)
 		opsDone = i + 1
 		gotIDs := world.IDs(objs)
+		world.Scribble(objs)
 		// C01: content equals the reference
 		if !world.SameIDs(gotIDs, wantIDs) {
 			detsim.Fail("cache-content-wrong", "after op %d %s (filter %s)\n  cache    : %v\n  reference: %v\n  history: %s", i, desc, sc.Filter.String(), gotIDs, wantIDs, descOps(sc.Ops[:i+1]))
@@ -462,6 +464,16 @@ func runCache(sci interface{}) {
 			}
 			if o != nil && !ref.Pred(world.SpecOf(o)) {
 				detsim.Fail("cached-object-rejected-by-filter", "after op %d %s: %s is cached but the current filter rejects it", i, desc, world.IDOf(o))
+			}
+			// GetObject(x) is Get(key of x): the lookup is by key, whatever else the
+			// caller's copy of the object says (other labels, another version)
+			probe := world.Spec{NS: k[0], Name: k[1], RV: "1", Labels: []map[string]string{nil, {"app": "a"}, {"app": "b", "tier": "x"}, {"tier": "y"}}[(i+len(k[1]))%4]}
+			o2, gerr2 := c.GetObject(world.BuildMeta("pod", probe))
+			if gerr2 != nil {
+				detsim.Fail("cache-read-error", "GetObject() on a running cache: %v", gerr2)
+			}
+			if (o == nil) != (o2 == nil) || o != nil && world.IDOf(o) != world.IDOf(o2) {
+				detsim.Fail("cache-content-wrong", "after op %d %s: GetObject(%s) = %v but Get(%s/%s) = %v", i, desc, probe.ID(), world.IDOf(o2), k[0], k[1], world.IDOf(o))
 			}
 		}
 	}
